@@ -199,6 +199,11 @@ class Engine:
         if not t and not f:
             raise Abort()
         if t and f:
+            if os.environ.get("SYMX_TRACE"):
+                import traceback as _tb
+                fr = [x for x in _tb.extract_stack(limit=12) if "symx/core" not in x.filename][-3:]
+                sys.stderr.write("FORK %s @ %s\n" % (str(e)[:200].replace("\n", " "),
+                                                     " < ".join("%s:%d" % (x.filename.split("/")[-1], x.lineno) for x in reversed(fr))))
             if self.mode == "fork":
                 val = self._fork()
             else:
